@@ -166,7 +166,12 @@ pub struct BufCall {
     pub run: BufFn,
 }
 
-pub const PATH_MENU: [&str; 12] = ["$", "$.*", "$[*]", "$.a", "$[0]", "$[last]", "$[0 to last]", "$[*]?(@ == 1)", "$.*?(exists(@.a))", "$[*].a", "$[*][*]", "$.a > 0"];
+/// the last four paths end in an error for some documents only after earlier items were selected
+/// (unsupported arithmetic reached for a later element): nothing may stay appended
+pub const PATH_MENU: [&str; 16] = [
+    "$", "$.*", "$[*]", "$.a", "$[0]", "$[last]", "$[0 to last]", "$[*]?(@ == 1)", "$.*?(exists(@.a))", "$[*].a", "$[*][*]", "$.a > 0",
+    "$[*]?(@ == 1 || exists(@.a?(@ + 1)))", "$.*?(@ == 1 || exists(@.a?(@ * 2)))", "$[*]?(exists(@.a?(@ + 1)))", "$[*]?(@ == 1)?(@ + 1)",
+];
 
 pub fn buffer_calls(v: &RVal, o: &Opts) -> Vec<BufCall> {
     let mut out: Vec<BufCall> = edit_calls(v, o)
